@@ -348,7 +348,8 @@ func typeAssert(n *node, withResult, withOk bool) {
 				}
 				return next
 			}
-			if c0.typ.cat == valueT {
+			if c0.typ.cat == valueT || isEmptyInterface(c0.typ) {
+				// The operand holds the interface value: store the value itself.
 				valf = reflect.ValueOf(v)
 			}
 			if v.node.typ.id() == typID {
